@@ -192,7 +192,10 @@ def drive(spec, pre, steps, order=None, order_seed=0, iface_kind="liesel"):
         r0 = Real3(spec, real.order)
         init_vals, _ = r0.observe()
     base["ext0"] = [v if k == "V" else 0 for v, k in zip(init_vals, real.kinds)]
+    created_before = (freeze(m.state), m.auto_update, [bool(nd.outdated) for nd in real.nodes])
     iface = make_iface(iface_kind, m)
+    if (freeze(m.state), m.auto_update, [bool(nd.outdated) for nd in real.nodes]) != created_before:
+        base["create_mut"] = "creating the interface modified the user's model (state before / after differ)"
     state0 = m.state
     pool = [state0]
     base["state0"] = view_of(real, state0)
@@ -313,6 +316,17 @@ def drive(spec, pre, steps, order=None, order_seed=0, iface_kind="liesel"):
     return base
 
 
+def drive_safe(spec, pre, steps, order, kind="liesel"):
+    """drive(); anything the interface / model raises outside a call that is allowed to raise is a failing input"""
+    try:
+        return drive(spec, pre, steps, order, iface_kind=kind)
+    except Exception as ex:
+        import traceback
+        msg = str(ex) if isinstance(ex, Anomaly) else (
+            f"driving the model through the interface raises {ex!r} at " + traceback.format_exc().strip().splitlines()[-3].strip())
+        return {"kind": "graph", "anomaly": msg, "spec": spec, "order": order, "pre": pre, "steps": steps, "iface_kind": kind}
+
+
 # ---------------------------------------------------------------------------------------------
 # step generator
 # ---------------------------------------------------------------------------------------------
@@ -344,8 +358,7 @@ def gen_steps(rnd, info: Info, scenario):
     V = [k for k in range(n) if info.kinds[k] == "V"]
     Vd = [k for k in V if info.pg.desc[k]] or V
     nonV = [k for k in range(n) if info.kinds[k] != "V"]
-    weak = [info.kid[vn] for vn, p in ((nm, info.vmap[info.kid[nm]]) for nm in info.names if info.kid[nm] in info.vmap)
-            if info.kinds[p] != "V" and info.kid[vn] not in info.nmap]
+    weak = [kid for kid, p in info.vmap.items() if info.kinds[p] != "V" and kid not in info.nmap]
     pre, steps = [], []
     npool = [1]
 
@@ -460,7 +473,11 @@ def gen_steps(rnd, info: Info, scenario):
         steps.append(["extract", keys, s])
         steps.append(["reput", keys, s])
         npool[0] += 1
-    else:      # user_lp, shared_name, goose_alias, random: differ in the model, not in the steps
+    elif scenario == "goose_alias":
+        if rnd.random() < 0.5:
+            pre += [["auto", False]]
+        upd(rand_pos(1, 2), 0)
+    else:      # user_lp, shared_name, random: differ in the model, not in the steps
         pass
     # random tail
     for _ in range(rnd.randint(1, 3) if steps else rnd.randint(2, 5)):
@@ -505,11 +522,7 @@ def make_case(rnd, quick, scenario, flavour):
         info = Info(real)
         pre, steps = gen_steps(rnd, info, scenario)
         kind = "goose_alias" if scenario == "goose_alias" else "liesel"
-        try:
-            case = drive(spec, pre, steps, real.order, iface_kind=kind)
-        except Anomaly as ex:
-            case = {"kind": "graph", "anomaly": str(ex), "spec": spec, "order": real.order, "pre": pre, "steps": steps,
-                    "iface_kind": kind, "kinds": real.kinds, "ins": real.ins, "fs": real.fs}
+        case = drive_safe(spec, pre, steps, real.order, kind)
         case["scenario"] = scenario
         case["flavour"] = flavour
         return case
@@ -542,6 +555,8 @@ def check_graph(c):
         return {order[k]: v for k, (v, _) in enumerate(view) if kinds[k] != "T"}
 
     pool = [c["state0"]]
+    if c.get("create_mut"):
+        return (-1, c["create_mut"])
     for si, (st, ob) in enumerate(zip(c["steps"], c["obs"])):
         where = f"step {si}"
         if ob.get("mut_state"):
@@ -658,7 +673,7 @@ def flat_make(kind, fields, values):
 def flat_read(kind, obj):
     import dataclasses
     if kind == "dict":
-        return [[int(k[1:]), v] for k, v in obj.items()]
+        return sorted([int(k[1:]), v] for k, v in obj.items())      # a dict is compared up to key order
     if kind == "namedtuple":
         return [[int(k[1:]), getattr(obj, k)] for k in obj._fields]
     return [[int(f.name[1:]), getattr(obj, f.name)] for f in dataclasses.fields(obj)]
@@ -701,6 +716,9 @@ def flat_case(kind, fields, values, op):
             c["vals"] = None
             c["exc"] = type(ex).__name__
     c["input_after"] = flat_read(kind, obj)
+    isint = lambda v: isinstance(v, int) and not isinstance(v, bool)
+    if (c.get("after") and not all(isint(v) for _, v in c["after"])) or (c.get("vals") and not all(isint(v) for v in c["vals"])):
+        c["bad_values"] = True
     return c
 
 
@@ -749,6 +767,8 @@ def check_flat(c):
         if unknown and c["flat"] != "dict":
             return f"{nm}: update_state({pos}) accepts the unknown field f{unknown[0]}"
         want = [[k, dict(pos).get(k, v)] for k, v in st] + [[k, v] for k, v in pos if k not in have]
+        if c["flat"] == "dict":
+            want = sorted(want)
         if c["after"] != want:
             return (f"{nm}: update_state({dict((f'f{k}', v) for k, v in pos)}) returns {c['after']}; the state with exactly "
                     f"these fields replaced is {want}")
@@ -763,7 +783,7 @@ def check_flat(c):
                 return f"{nm}: extract_position({keys}) raises {c.get('exc')}"
             return None
         if any(k not in have for k in keys):
-            return f"{nm}: extract_position({keys}) accepts an unknown key"
+            return f"{nm}: extract_position({['f%d' % k for k in keys]}) accepts an unknown key and returns {c['vals']}"
         if c["vals"] != [dict(st)[k] for k in keys]:
             return f"{nm}: extract_position({keys}) = {c['vals']}"
     return None
@@ -863,8 +883,16 @@ def gen_jit(rnd, quick):
         vals = [rnd.randint(-8, 8) / 4 for _ in range(2)] + [rnd.randint(1, 8) / 4] + [rnd.randint(-12, 12) / 4 for _ in range(6)]
         keys = ["b0", "b1"] if variant != 1 else ["b0", "log_sigma"]
         positions = [{k: rnd.randint(-8, 8) / 4 for k in keys} for _ in range(3)]
-        cases.append(jit_case(variant, vals, positions))
+        cases.append(jit_case_safe(variant, vals, positions))
     return cases
+
+
+def jit_case_safe(variant, vals, positions):
+    try:
+        return jit_case(variant, vals, positions)
+    except Exception as ex:
+        return {"kind": "jit", "variant": variant, "vals": vals, "positions": positions, "scenario": f"jit.variant{variant}",
+                "model_unchanged": True, "problems": [f"eager / jit / vmap calls on the array-valued model raise {ex!r}"]}
 
 
 # ---------------------------------------------------------------------------------------------
@@ -873,19 +901,19 @@ def gen_jit(rnd, quick):
 def corpus_cases():
     out = []
     # x -> a -> b (generated quantity, feeds no distribution); y ; same state twice with different keys; chained
-    spec = {"items": [{"k": "var", "weak": False, "role": "par", "v": 3,
-                       "dist": {"ins": [1], "kw": [], "kwn": [], "fs": ["aff", 4, [3, 5]], "transient": False}},
-                      {"k": "value", "v": 2, "data": False},
-                      {"k": "calc", "ins": [0], "kw": [], "kwn": [], "fs": ["aff", 3, [2]]},
-                      {"k": "calc", "ins": [2, 1], "kw": [], "kwn": [], "fs": ["aff", 7, [4, 5]]}]}
+    spec = {"items": [{"k": "value", "v": 2, "data": False},
+                      {"k": "var", "weak": False, "role": "par", "v": 3,
+                       "dist": {"ins": [0], "kw": [], "kwn": [], "fs": ["aff", 4, [3, 5]], "transient": False}},
+                      {"k": "calc", "ins": [1], "kw": [], "kwn": [], "fs": ["aff", 3, [2]]},
+                      {"k": "calc", "ins": [2, 0], "kw": [], "kwn": [], "fs": ["aff", 7, [4, 5]]}]}
     real = Real3(spec, None, 0)
     info = Info(real)
-    kx, kxv, ky = info.kid["v0"], info.kid["v0_value"], info.kid["n1"]
+    kx, kxv, ky = info.kid["v1"], info.kid["v1_value"], info.kid["n0"]
     steps = [["update", [[kx, 10], [ky, 20]], 0], ["update", [[ky, 5]], 0], ["extract", [kx, ky], 2], ["lp", 2],
              ["update", [[kxv, 8]], 1], ["update", [[kxv, 1], [kx, 2]], 0], ["extract", [kxv, kx], 4],
              ["update", [[info.kid[NO_KEY], 1]], 0], ["update", [[ky, 6]], 0], ["update", [], 3]]
     for pre in ([], [["auto", False]]):
-        c = drive(spec, pre, steps, real.order)
+        c = drive_safe(spec, pre, steps, real.order)
         c["scenario"] = "corpus"
         c["flavour"] = "corpus"
         out.append(c)
@@ -894,7 +922,7 @@ def corpus_cases():
                        {"k": "calc", "ins": [0], "kw": [], "kwn": [], "fs": ["aff", 1, [3]]}], "user": {"prob": 1, "lik": 1}}
     real = Real3(spec2, None, 0)
     info = Info(real)
-    c = drive(spec2, [], [["update", [[info.kid["n0"], 9]], 0], ["lp", 1], ["lp", 0]], real.order)
+    c = drive_safe(spec2, [], [["update", [[info.kid["n0"], 9]], 0], ["lp", 1], ["lp", 0]], real.order)
     c["scenario"] = "corpus"
     c["flavour"] = "corpus"
     out.append(c)
@@ -934,11 +962,14 @@ def generate(ctx):
         if c["pre"] and ["auto", False] in c["pre"]:
             ctx.hist("model.auto_update_off_when_interface_created")
         seen_src = {}
+        views = [c["state0"]]
         for st, ob in zip(c["steps"], c["obs"]):
             ncalls += 1
             ctx.hist("call." + st[0] + (".raises" if ob.get("raised") else ""))
+            if st[0] in ("update", "save") and not ob.get("raised"):
+                views.append(ob["view"])
             if st[0] == "update":
-                if any(f for _, f in (c["state0"] if st[2] == 0 else [[0, False]])):
+                if any(f for _, f in views[st[2]]):
                     ctx.hist("update.on_outdated_state(documented limit)")
                 keyset = frozenset(k for k, _ in st[1])
                 if st[2] in seen_src and not keyset >= seen_src[st[2]]:
@@ -1010,8 +1041,8 @@ def oracle(c):
 
 
 def describe(c):
-    if not c.get("order"):
-        return str(c.get("spec"))
+    if not c.get("order") or not c.get("kinds"):
+        return json.dumps({"spec": c.get("spec"), "pre": c.get("pre"), "steps": c.get("steps")})[:1500]
     return "; ".join(f"{nm}:{k}{[c['order'][i] for i in ins] if ins else ''}" for nm, k, ins in zip(c["order"], c["kinds"], c["ins"]))
 
 
@@ -1128,7 +1159,7 @@ Lemma shard_ok : forallb agrees3 cases = true.
 Proof. vm_compute. reflexivity. Qed.
 """
         shards.append((ctx.new_shard(txt), idxs))
-    flat = [i for i, c in enumerate(cases) if c["kind"] == "flat"]
+    flat = [i for i, c in enumerate(cases) if c["kind"] == "flat" and not c.get("bad_values")]
     for k in range(0, len(flat), 500):
         idxs = flat[k:k + 500]
         txt = HEADER + f"""Definition fcases : list flatcase := {lst(flat_lit(cases[i]) for i in idxs)}.
@@ -1222,7 +1253,7 @@ def replay(rp) -> int:
             cc = flat_case(c["flat"], c["fields"], c["values"], c["op"])
             print({k: cc.get(k) for k in ("flat", "state", "op", "after", "vals", "xp", "exc", "input_after")})
         elif kind == "jit":
-            cc = jit_case(c["variant"], c["vals"], c["positions"])
+            cc = jit_case_safe(c["variant"], c["vals"], c["positions"])
             print({k: cc.get(k) for k in ("variant", "vals", "positions", "problems", "model_unchanged")})
         else:
             cc = drive(c["spec"], c["pre"], c["steps"], c.get("order"), iface_kind=c.get("iface_kind", "liesel"))
